@@ -387,6 +387,17 @@ pub open spec fn session_ok(s: &Session) -> bool { s.active.v && s.user_id.v > 0
 pub open spec fn expired_at(t: PersonalAccessToken, now: IggyTimestamp) -> bool {
     t.expiry_at matches Some(e) && e.0 <= now.0
 }
+// C10 "deleting ... the token ends that credential's validity": tokens are deleted by NAME, so a user's token names must be unique —
+// expired tokens included (they stay in the table until the cleaner runs): otherwise `delete` can remove a dead namesake and
+// answer Ok while the live token keeps authenticating (seed C10_4)
+pub open spec fn pat_names_unique_of(u: User) -> bool {
+    forall|h1: Name, h2: Name| #![trigger u.personal_access_tokens@[h1], u.personal_access_tokens@[h2]]
+        u.personal_access_tokens@.contains_key(h1) && u.personal_access_tokens@.contains_key(h2)
+        && u.personal_access_tokens@[h1].name == u.personal_access_tokens@[h2].name ==> h1 == h2
+}
+pub open spec fn pat_names_unique(s: &System) -> bool {
+    forall|k: u32| #[trigger] s.users@.contains_key(k) ==> pat_names_unique_of(s.users@[k])
+}
 pub open spec fn expiry_of(now: IggyTimestamp, expiry: IggyExpiry) -> Option<IggyTimestamp> {
     match expiry {
         IggyExpiry::ExpireDuration(d) => Some(IggyTimestamp((now.0 + d.0) as u64)),
